@@ -25,7 +25,7 @@ def build_harness(ctx, name, assertions):
     exe = os.path.join(ctx.scratch, name)
     srcs = [os.path.join(HARNESS, "relay_harness.c")] + \
            [os.path.join(REPO, "src/common", f) for f in ("xmalloc.c", "xstring.c", "fd.c")]
-    ok = ctx.cc(exe, srcs, flags=["-fno-builtin", "-Wl,--wrap=fputs"], san=True, assertions=assertions)
+    ok = ctx.cc(exe, srcs, flags=["-fno-builtin", "-Wl,--wrap=fputs", "-Wl,--wrap=read"], san=True, assertions=assertions)
     return exe if ok else None
 
 
@@ -369,6 +369,20 @@ def build_ops(rng, case, abandon=False, run_form=False):
     for i in range(len(case.targets)):
         if i not in done_hosts:
             ops.append("flush %d" % i)
+    if rng.random() < 0.3 and not run_form:
+        # read(2) faults: short reads / spurious EAGAIN / EINTR at some or all handler calls
+        every = rng.random() < 0.4
+        ops2 = []
+        for op in ops:
+            w = op.split()
+            if w[0] in ("feed", "eof", "drain") and (every or rng.random() < 0.4):
+                cap = rng.choice(["-", "-", "0", "1", "2", "7", "63", "64", "65", "500", "999", "1000", "1001", "4000"])
+                if w[0] == "drain" and cap == "0":
+                    cap = "1"
+                op = "%s %s %s" % (op, cap, rng.choice(["0", "0", "1", "2", "4"]))
+            ops2.append(op)
+        ops = ops2
+        case.tags.add("read-faults")
     case.ops = ops
     return case
 
